@@ -70,12 +70,17 @@ func VH_C16_auth_body_post() {
 	out2, err2 := sp.BuildAuthBodyPost(relay2)
 	vDebugErr("second", err2)
 	vAssert("C16,C17.earlier-result-unaffected-by-a-later-rendering", vStr(out1) == snapshot1)
+	vAssert("C16,C17.a-later-rendering-succeeds-like-the-first", err2 == nil)
 	if err2 != nil {
 		return
 	}
 	vReach("built-twice", true)
 	vAssert("C16.message-field-present", ok1)
 	vAssert("C16.posted-document-is-signed-iff-configured", vPostedDocumentSigned(msg1) == sp.SignAuthnRequests)
-	_ = out2
+	// each rendering carries its own relay state, whatever was rendered before
+	rs1, okR1, escR1 := vFormField(out1, "input", "RelayState", "value")
+	vAssert("C16.first-rendering-relaystate", vAnd(okR1 == (relay1 != ""), vImplies(relay1 != "", vAnd(escR1, rs1 == relay1))))
+	rs2, okR2, escR2 := vFormField(out2, "input", "RelayState", "value")
+	vAssert("C16,C17.later-rendering-carries-its-own-relaystate", vAnd(okR2 == (relay2 != ""), vImplies(relay2 != "", vAnd(escR2, rs2 == relay2))))
 	var _ *etree.Document
 }
